@@ -1,1 +1,2 @@
 import HopModel.Props.C14
+import HopModel.Props.C20
